@@ -26,7 +26,11 @@ with ThreadPoolExecutor(a.jobs) as ex:
             print("    " + r["tail"][-400:].replace("\n", "\n    "))
         if a.replay and r["status"] == "failed" and r.get("playback") is not None:
             mem = any(any(k in f for k in K.MEMORY_FAILURES) for f in r["failed"])
-            rep = K.replay(r["harness"], r["playback"], miri=mem)
+            rep = {}
+            for vals in r["playback"]:
+                rep = K.replay(r["harness"], vals, miri=mem)
+                if K.reproduced(rep):
+                    break
             print("    replay:", {k: v["rc"] for k, v in rep.items()}, "reproduced:", K.reproduced(rep))
             for k, v in rep.items():
                 print(f"    [{k}] " + v["tail"][-300:].replace("\n", "\n      "))
